@@ -28,7 +28,8 @@ EXPLANATION = (
     "must-hold `_commit_req is None` at the send; resume position in the same arm as the committed value."
     ' Also: the on-success recorder stores the acknowledged offset on every path whatever was recorded before (R5).'
 )
-SHARED = [('C13', ['R1'], 'stop() cancels a pending commit retry: a stopped consumer does not commit later'), ('C07', ['R5'], 'a commit reply that leaves the partition out is a failed commit, not an acknowledgement'), ('C14', ['R4'], 'the consumer leaves its position only for an out-of-range answer: no other error makes it jump, and later commit, past messages it never processed'), ('C09', ['R4'], 'a broker error on a commit surfaces as a failure (fail_on_error)'), ('C08', ['R3'], 'coordinator errors are handled, not swallowed'), ('C02', ['R6'], 'messages at or below the committed position are not redelivered after a restart'), ('C05', ['R5'], 'offsets of messages inside compressed wrappers are the log offsets: the committed offset is not ahead of what was processed')]
+SHARED = [('C05', ['R4'], 'a batch the client cannot decode (unknown compression) fails the fetch: it is not stepped over and committed past'),
+          ('C13', ['R1'], 'stop() cancels a pending commit retry: a stopped consumer does not commit later'), ('C07', ['R5'], 'a commit reply that leaves the partition out is a failed commit, not an acknowledgement'), ('C14', ['R4'], 'the consumer leaves its position only for an out-of-range answer: no other error makes it jump, and later commit, past messages it never processed'), ('C09', ['R4'], 'a broker error on a commit surfaces as a failure (fail_on_error)'), ('C08', ['R3'], 'coordinator errors are handled, not swallowed'), ('C02', ['R6'], 'messages at or below the committed position are not redelivered after a restart'), ('C05', ['R5'], 'offsets of messages inside compressed wrappers are the log offsets: the committed offset is not ahead of what was processed')]
 ASSUMPTIONS = [
     "Twisted: addCallback handlers run only on success; a failure absorbed by an errback resumes the generator normally",
     "the broker acknowledges a commit iff the response error code is 0 (client.send_offset_commit_request raises otherwise)",
@@ -129,7 +130,6 @@ def run(ctx):
             for x in walk_body_shallow(h.body):
                 if isinstance(x, ast.Call) and call_name(x) in ("errback", "callback") and (call_recv(x) or "").startswith("self."):
                     established.add(call_recv(x) + ".called")
-                    established.add(call_recv(x))
             for a in prog.direct_writes(h):
                 established.add("self." + a)
     susp = [n for n in cf.nodes if n.suspends and any(isinstance(x, ast.Yield) and x.value is not None and unparse(
@@ -144,7 +144,18 @@ def run(ctx):
     distinguishing = []
     for n in cf.nodes:
         if n.kind == "test" and n.id in fwd:
-            ch = chains_in(n.stmt.test)
+            ch = set(chains_in(n.stmt.test))
+            # through locals: a copy of an attribute taken earlier (`start_d = self._start_d` ... `start_d.called`) and a
+            # boolean computed for this test (`same_run = self._start_d is start_d`)
+            for y in [y for y in ast.walk(n.stmt.test) if isinstance(y, ast.Name)]:
+                dy_ = reaching_defs(cf, n.id, y.id)
+                vals_ = [cf.nodes[d_].stmt.value for d_ in (dy_ or []) if isinstance(cf.nodes[d_].stmt, ast.Assign) and len(cf.nodes[d_].stmt.targets) == 1]
+                if dy_ and len(vals_) == len(dy_):
+                    for v_ in vals_:
+                        if isinstance(v_, ast.Attribute):
+                            ch |= {c_.replace(y.id, norm(v_), 1) for c_ in ch if c_ == y.id or c_.startswith(y.id + ".")}
+                        elif isinstance(v_, (ast.Compare, ast.BoolOp, ast.UnaryOp)):
+                            ch |= set(chains_in(v_))
             if ch & (established | yield_vars):
                 # one outcome of the test must leave the loop (not reach the invocation again)
                 outs = [t for t, lab in cf.succ[n.id] if lab and lab[0] == "cond"]
@@ -181,6 +192,63 @@ def run(ctx):
             "auto_commit_every_n=2, batch 0..5, block [0,1] pending: stop() makes the processor run on [2,3]; if it completes "
             "synchronously the processed offset becomes 3 and the next commit covers the cancelled block")
 
+    # stop() may be followed by start() before the feeder looks again (the processor, or a callback on the start Deferred,
+    # restarts the consumer): "stopped" is therefore recognised by comparing the start Deferred with the one the feeder
+    # began under - between an invocation and the wait for it, and between that wait and the next invocation
+    def _is_run_copy(at_id_, loc_):
+        defs_ = reaching_defs(cf, at_id_, loc_.id)
+        return bool(defs_) and all(isinstance(cf.nodes[d_].stmt, ast.Assign) and norm(cf.nodes[d_].stmt.value) == "self._start_d"
+                                   and d_ not in cf.reach([inv_node.id], follow_exc=False) for d_ in defs_)
+
+    def _compares_run(at_id_, e_, is_copy):
+        for x in ast.walk(e_):
+            if isinstance(x, ast.Compare) and len(x.ops) == 1 and isinstance(x.ops[0], (ast.Is, ast.IsNot, ast.Eq, ast.NotEq)):
+                a_, b_ = x.left, x.comparators[0]
+                for cur_, loc_ in ((a_, b_), (b_, a_)):
+                    if norm(cur_) == "self._start_d" and isinstance(loc_, ast.Name) and is_copy(at_id_, loc_):
+                        return True
+            # a predicate method given the run's Deferred: `self._run_over(start_d)` comparing its parameter with the attribute
+            if isinstance(x, ast.Call):
+                g_ = prog.resolve_call(feeder, x)
+                if g_ is not None and g_.cls is feeder.cls:
+                    ps_ = [p_ for p_ in g_.params if p_ not in ("self", "cls")]
+                    for i_, a_ in enumerate(x.args):
+                        if isinstance(a_, ast.Name) and i_ < len(ps_) and is_copy(at_id_, a_):
+                            if not any(isinstance(w_, (ast.Assign, ast.AugAssign)) and ps_[i_] in names_in(w_.targets[0] if isinstance(w_, ast.Assign) else w_.target)
+                                       for w_ in walk_body_shallow(g_.body)) and _compares_run(None, g_.node, lambda _i, l_, p_=ps_[i_]: l_.id == p_):
+                                return True
+        return False
+
+    def _run_tests():
+        out_ = []
+        for n in cf.nodes:
+            if n.kind != "test":
+                continue
+            # the test itself, and a boolean local it reads that was computed for it since the invocation (`same_run = ... is ...`;
+            # constants on the other arms: the flag form of an inlined predicate)
+            if _compares_run(n.id, n.stmt.test, _is_run_copy):
+                out_.append(n.id)
+                continue
+            for y in ast.walk(n.stmt.test):
+                if isinstance(y, ast.Name):
+                    dy_ = reaching_defs(cf, n.id, y.id)
+                    if not dy_ or not all(isinstance(cf.nodes[d_].stmt, ast.Assign) and d_ in cf.reach([s.id] + [inv_node.id], follow_exc=False) for d_ in dy_):
+                        continue
+                    vals_ = [(d_, cf.nodes[d_].stmt.value) for d_ in dy_]
+                    if all(isinstance(v_, ast.Constant) or _compares_run(d_, v_, _is_run_copy) for d_, v_ in vals_) and any(not isinstance(v_, ast.Constant) for d_, v_ in vals_):
+                        out_.append(n.id)
+                        break
+        return out_
+    rt_ = _run_tests()
+    after_inv = [t for t, lab in cf.succ[inv_node.id] if lab != ("exc",)]
+    src1_ = [t for t in after_inv if t not in rt_]
+    src2_ = [t for t in after if t not in rt_]
+    ok_run = bool(rt_) and s.id not in (cf.reach(src1_, avoid=rt_, follow_exc=False) | set(src1_)) and \
+        inv_node.id not in (cf.reach(src2_, avoid=rt_, follow_exc=False) | set(src2_))
+    r.check(ok_run, "%s#run-identity-checked" % feeder.qname, "the feeder does not compare the start Deferred with the one it began under (before "
+            "the loop) on every path from an invocation to the wait for it and from that wait to the next invocation", where(feeder, s.stmt),
+            "the processor stops the consumer and starts it again at once: the remaining blocks of the old reply are handed to the processor "
+            "after the restart, and the new run's first reply while that invocation is still pending")
     r.check(absorbs is False or not releases, "%s#failure-exit-keeps-block" % feeder.qname,
             "after a failed block the feeder still signals block completion (%s): the next fetch reply is fed to the "
             "processor and progress passes the failed block" % [m.text(50) for m in releases[:2]], where(feeder, s.stmt),
@@ -332,14 +400,25 @@ def run(ctx):
 
 
 MUTANTS = [
-    {"id": "feeder-ignores-stopping", "file": "consumer.py", "old": "                if self._stopping or self._start_d is None or self._start_d.called:",
-     "new": "                if self._start_d is None or self._start_d.called:", "expect": "C03.R2", "note": "finding F16"},
+    {"id": "feeder-takes-a-new-run-for-its-own", "file": "consumer.py",
+     "edits": [("consumer.py", "            if self._stopping or start_d is None or self._start_d is not start_d:\n", "            if self._stopping or self._start_d is None:\n"),
+               ("consumer.py", "                if self._stopping or self._start_d is not start_d or start_d.called:\n", "                if self._stopping or self._start_d is None or self._start_d.called:\n")],
+     "expect": "C03.R2", "note": "finding F46"},
+    {"id": "feeder-run-checked-only-after-the-wait", "file": "consumer.py",
+     "old": "            if self._stopping or start_d is None or self._start_d is not start_d:\n", "new": "            if self._stopping or self._start_d is None:\n",
+     "expect": "C03.R2", "note": "finding F46: the processor restarts the consumer and returns a pending Deferred"},
+    {"id": "feeder-run-captured-inside-the-loop", "file": "consumer.py",
+     "edits": [("consumer.py", "        start_d = self._start_d\n\n        while proc_block_begin", "        while proc_block_begin"),
+               ("consumer.py", "            msgs_to_proc = messages[proc_block_begin:proc_block_end]\n", "            msgs_to_proc = messages[proc_block_begin:proc_block_end]\n            start_d = self._start_d\n")],
+     "expect": "C03.R2", "note": "finding F46: captured per block, the restart made while the previous block was awaited is the run compared with"},
+    {"id": "feeder-ignores-stopping", "file": "consumer.py", "old": "                if self._stopping or self._start_d is not start_d or start_d.called:",
+     "new": "                if self._start_d is not start_d or start_d.called:", "expect": "C03.R2", "note": "finding F16"},
     {"id": "update-on-both", "file": "consumer.py", "old": "d.addCallback(self._update_processed_offset, last_offset)",
      "new": "d.addBoth(self._update_processed_offset, last_offset)", "expect": "C03.R1"},
     {"id": "offset-of-whole-fetch", "file": "consumer.py", "old": "last_offset = msgs_to_proc[-1].offset",
      "new": "last_offset = messages[-1].offset", "expect": "C03.R1"},
     {"id": "no-failure-check-after-yield", "file": "consumer.py",
-     "old": "                if self._stopping or self._start_d is None or self._start_d.called:\n", "new": "                if False:\n",
+     "old": "                if self._stopping or self._start_d is not start_d or start_d.called:\n", "new": "                if False:\n",
      "expect": "C03.R2"},
     {"id": "commit-rereads-offset", "file": "consumer.py", "old": "            callbackArgs=(commit_offset,),",
      "new": "            callbackArgs=(self._last_processed_offset,),", "expect": "C03.R5"},
@@ -358,8 +437,8 @@ MUTANTS = [
      "new": "            if response.offset and response.offset != OFFSET_NOT_COMMITTED:\n                self._fetch_offset = response.offset + 1\n                self._last_committed_offset = response.offset\n            elif self.auto_offset_reset == OFFSET_LATEST:\n                self._fetch_offset = OFFSET_LATEST\n            else:\n                self._fetch_offset = OFFSET_EARLIEST",
      "expect": "C03.R5", "note": "seeded C03-2"},
     {"id": "processor-cancel-swallowed-when-running", "file": "consumer.py",
-     "old": "        if not (self._stopping and failure.check(CancelledError)):\n            if self._start_d:",
-     "new": "        if not (self._stopping or failure.check(CancelledError)):\n            if self._start_d:", "expect": "C03.R2", "note": "seeded C03-3"},
+     "old": "        if not (self._stopping and failure.check(CancelledError)):\n",
+     "new": "        if not (self._stopping or failure.check(CancelledError)):\n", "expect": "C03.R2", "note": "seeded C03-3"},
     {"id": "no-generation", "file": "consumer.py", "old": "            group_generation_id=self.commit_generation_id,\n", "new": "",
      "expect": "C03.R7"},
     {"id": "second-writer", "file": "consumer.py", "old": "        self._processor_d = None  # It has fired, we can clear it\n",
@@ -371,7 +450,11 @@ MUTANTS.append({"id": "failure-exit-breaks", "file": "consumer.py",
                 "new": "                    # commit progress past an unprocessed block.\n                    break\n",
                 "expect": "C03.R2"})
 TWINS = [
+    {"id": "feeder-run-compared-with-equality", "file": "consumer.py",
+     "edits": [("consumer.py", "            if self._stopping or start_d is None or self._start_d is not start_d:\n", "            if self._stopping or start_d is None or start_d != self._start_d:\n"),
+               ("consumer.py", "                if self._stopping or self._start_d is not start_d or start_d.called:\n", "                same_run = self._start_d is start_d\n                if self._stopping or not same_run or start_d.called:\n")],
+     "note": "the comparison written the other way round / through a local"},
     {"id": "check-yield-result-form", "file": "consumer.py",
-     "old": "                if self._stopping or self._start_d is None or self._start_d.called:\n",
-     "new": "                if self._stopping or not self._start_d or self._start_d.called:\n"},
+     "old": "                if self._stopping or self._start_d is not start_d or start_d.called:\n",
+     "new": "                if self._stopping or start_d is not self._start_d or start_d.called:\n"},
 ]
